@@ -1,11 +1,27 @@
 import PEval.Driver.Util
+import PEval.Driver.C01
+import PEval.Driver.C04
 import PEval.Model.PassFail
+import PEval.Model.Pipeline
 /-! Driver handler for C03 (per-frame TP/FP/FN/TN accounting).
 
 Request  `{"op":"frame", "gts":[GT…], "results":[{"est":n,"ec":b,"gt":GT|null,"lab":b,"thr":q|null,"score":q|null}…]}`
 with `GT = {"id":n,"fp":b,"crit":b,"key":n}`; `gts` is the manager-filtered ground-truth list, `results`
 the matcher's output. Response: the four lists, the filtered inputs, the counters, the per-result
-status of the surviving results (for the branch histogram) and the decidable well-formedness flags. -/
+status of the surviving results (for the branch histogram) and the decidable well-formedness flags.
+
+Request `{"op":"pipeline", …}`: one WHOLE frame for the composed model `Pipeline.detectFrame`
+(matcher → critical filter + pass/fail → per-label metrics):
+matcher configuration as in the C01 driver (`policy`, `mode`, `targets`, `thresholds`, `fp_validation`),
+`"ests":[{"id":n,"label":s,"frame":s,"l":n,"c":q,"crit":b}…]`,
+`"gts":[{"id":n,"label":s,"frame":s,"l":n,"crit":b,"key":n}…]` (the manager-filtered lists; `label` the
+enum value the matcher reads, `l` the AP model's label number), `"vals":[[q…]…]` the real score-table
+values, `"pairs":[{"i":n,"j":n,"pf":q|null,"s":{"center":q|null,"plane":…,"iou2d":…,"iou3d":…},"h":q}…]`
+(per pair: plane distance, the four matching values, heading weight; positions in `ests`/`gts`),
+`"pf_targets":[n…]`, `"pf_thrs":[q…]|null`, `"crit_targets":[n…]`, `"map_targets":[n…]`,
+`"maps":[{"mode":s,"thrs":[q…]}…]`.
+Response: `matched` (pairs by id), the four lists, filtered inputs, counters, `maps` (as the C04 driver
+prints a `Map`), `wf` / `gts_distinct` / `ids_distinct` / `coherent` flags; or `{"err":kind}`. -/
 open Lean
 
 namespace PEval.Driver.C03
@@ -34,9 +50,96 @@ def statusName (r : Res) : String :=
   | (.FP, none) => "nogt"
   | _ => "other"
 
+/-! ### the composed model -/
+
+structure PairData where
+  i : Nat
+  j : Nat
+  pf : Option Rat
+  center : Option Rat
+  plane : Option Rat
+  iou2d : Option Rat
+  iou3d : Option Rat
+  h : Rat
+
+def getPair (j : Json) : Except String PairData := do
+  let s ← j.getObjVal? "s"
+  pure { i := ← getNat j "i", j := ← getNat j "j", pf := ← getOptRat j "pf",
+         center := ← getOptRat s "center", plane := ← getOptRat s "plane",
+         iou2d := ← getOptRat s "iou2d", iou3d := ← getOptRat s "iou3d", h := ← getRat j "h" }
+
+def PairData.score (p : PairData) : PEval.AP.Mode → Option Rat
+  | .centerDistance => p.center
+  | .planeDistance => p.plane
+  | .iou2d => p.iou2d
+  | .iou3d => p.iou3d
+
+def getMapCfg (j : Json) : Except String PEval.Pipeline.MapCfg := do
+  pure { mode := ← PEval.Driver.C04.getMode j, thrs := ← getRatList j "thrs" }
+
+def decodeFrame (j : Json) : Except String PEval.Pipeline.Frame := do
+  let cfg ← PEval.Driver.C01.decodeCfg j
+  let ests ← getArr j "ests"
+  let gts ← getArr j "gts"
+  let eObjs ← ests.toList.mapM fun e => do
+    pure (PEval.Matching.Obj.mk (← getStr e "label") (← getStr e "frame"))
+  let gObjs ← gts.toList.mapM fun g => do
+    pure (PEval.Matching.Obj.mk (← getStr g "label") (← getStr g "frame"))
+  let eAttr : Array PEval.Pipeline.EstAttr ← ests.mapM fun e => do
+    pure { id := ← getNat e "id", label := ← getNat e "l", conf := ← getRat e "c", crit := ← getBool e "crit" }
+  let gAttr : Array PEval.Pipeline.GtAttr ← gts.mapM fun g => do
+    pure { id := ← getNat g "id", label := ← getNat g "l", crit := ← getBool g "crit", eqKey := ← getNat g "key" }
+  let rows ← getArr j "vals"
+  let vals : Array (Array Rat) ← rows.mapM fun r => do
+    match r with
+    | .arr a => a.mapM asRat
+    | _ => throw "vals: expected rows"
+  if vals.size != ests.size then throw "vals: wrong number of rows"
+  for r in vals do
+    if r.size != gts.size then throw "vals: wrong number of columns"
+  let pairs ← (← getArr j "pairs").toList.mapM getPair
+  let look (i k : Nat) : Option PairData := pairs.find? (fun p => p.i == i && p.j == k)
+  let pfThrs ← match PEval.Driver.C01.optField j "pf_thrs" with
+    | none => pure none
+    | some _ => (getRatList j "pf_thrs").map some
+  pure {
+    cfg := cfg
+    scene := { ests := eObjs, gts := gObjs, val := fun i k => ((vals[i]?).bind (·[k]?)).getD 0 }
+    est := fun i => (eAttr[i]?).getD ⟨0, 0, 0, false⟩
+    gt := fun k => (gAttr[k]?).getD ⟨0, 0, false, 0⟩
+    pfTargets := ← getNatList j "pf_targets"
+    pfThrs := pfThrs
+    pfScore := fun i k => (look i k).bind (·.pf)
+    apScore := fun m i k => (look i k).bind (·.score m)
+    hw := fun i k => ((look i k).map (·.h)).getD 0
+    critTargets := ← getNatList j "crit_targets"
+    mapTargets := ← getNatList j "map_targets"
+    maps := ← (← getArr j "maps").toList.mapM getMapCfg }
+
+def jMatched (f : PEval.Pipeline.Frame) (r : PEval.Matching.Res) : Json :=
+  Json.arr #[jNat (f.est r.1).id, jOptNat (r.2.map fun k => (f.gt k).id)]
+
 def handle : Json → Except String Json := fun j => do
   let op ← getStr j "op"
   match op with
+  | "pipeline" =>
+    let f ← decodeFrame j
+    let flags : List (String × Json) := [
+      ("gts_distinct", decide (GtsDistinct (PEval.Pipeline.pfGts f))),
+      ("ids_distinct", decide (((List.range f.scene.gts.length).map (fun k => (f.gt k).id)).Nodup)),
+      ("coherent", PEval.Pipeline.labelsCoherent f)]
+    match PEval.Pipeline.detectFrame f with
+    | .error e => pure (Json.mkObj ([("err", Json.str e)] ++ flags))
+    | .ok o =>
+      let p := o.pf
+      pure (Json.mkObj ([
+        ("matched", jList (jMatched f) o.matched),
+        ("tp", jList jPair p.tp), ("fp", jList jPair p.fp),
+        ("tn", jList (fun g : GT => jNat g.id) p.tn), ("fn", jList (fun g : GT => jNat g.id) p.fn),
+        ("results", jList jPair p.results), ("gts", jList (fun g : GT => jNat g.id) p.gts),
+        ("ns", jNat (numSuccess p)), ("nf", jNat (numFail p)),
+        ("maps", jList PEval.Driver.C04.jMapOut o.maps),
+        ("wf", decide (MatcherWF (PEval.Pipeline.pfFrame f o.matched)))] ++ flags))
   | "frame" =>
     let gts ← (← getArr j "gts").toList.mapM getGT
     let rs ← (← getArr j "results").toList.mapM getRes
